@@ -128,14 +128,17 @@ def dropTrailingAt (thr : Rat) (cs : List Rat) : List Rat :=
 def absR (x : Rat) : Rat := if x < 0 then -x else x
 
 /-- what `C16_count_robust` asks of `np.arange(start, stop, step)` (returned `cs`) and of the
-    computed threshold when `stop - start = n * step`: `n` or `n + 1` points (the ceiling inside
-    `arange` may have been pushed either way), every point and the threshold less than a quarter
-    step (`δ`, `4 δ < step`) off its exact value.  Evaluated on numpy's real output at run time. -/
-def arangeContract (start stop step δ thr : Rat) (n : Nat) (cs : List Rat) : Bool :=
-  decide (0 < step) && decide (4 * δ < step) && decide (stop - start = (n : Rat) * step)
+    computed threshold `thr` (binary64 `stop - step / 2`) for a request of `n` whole steps: `n` or
+    `n + 1` points (the ceiling inside `arange` may have been pushed either way), every point less
+    than a quarter step (`δ`, `4 δ < step`) off the lattice `start + i * step`, the threshold as far
+    off `start + n * step - step / 2` (so `stop` itself is only asked to be that close to
+    `start + n * step`: it is a binary64 number, the product need not be).  Evaluated on numpy's real
+    output at run time. -/
+def arangeContract (start step δ thr : Rat) (n : Nat) (cs : List Rat) : Bool :=
+  decide (0 < step) && decide (4 * δ < step)
   && (cs.length == n || cs.length == n + 1)
   && (List.range cs.length).all (fun i => decide (absR (cs.getD i 0 - (start + (i : Rat) * step)) ≤ δ))
-  && decide (absR (thr - (stop - step / 2)) ≤ δ)
+  && decide (absR (thr - (start + (n : Rat) * step - step / 2)) ≤ δ)
 
 macro "se_c16" : tactic =>
   `(tactic| first
